@@ -21,6 +21,7 @@ type ColSpec struct {
 	Kind      string         // "" (not configured) | enc | search | mask | token
 	Envelope  string         // acrastruct | acrablock
 	DataType  string         // "" | str | bytes | int32 | int64
+	TypeID    uint32         // when non-zero the type is configured as data_type_db_identifier (PostgreSQL OID) instead of data_type
 	OnFail    string         // "" | ciphertext | default_value | error
 	Default   *string
 	MaskPat   string
@@ -71,7 +72,9 @@ func YAML(tables []TableSpec) string {
 			if c.Envelope != "" && c.Kind != "token" {
 				fmt.Fprintf(&b, "        crypto_envelope: %s\n", c.Envelope)
 			}
-			if c.DataType != "" && c.Kind != "token" {
+			if c.TypeID != 0 && c.Kind != "token" {
+				fmt.Fprintf(&b, "        data_type_db_identifier: %d\n", c.TypeID)
+			} else if c.DataType != "" && c.Kind != "token" {
 				fmt.Fprintf(&b, "        data_type: %s\n", c.DataType)
 			}
 			if c.OnFail != "" {
